@@ -107,6 +107,7 @@ type Ctx struct {
 	fnConsts  map[string]bool
 	assumed   map[string]bool // extern/assumed contracts used
 	axiomsUsed map[string]bool
+	theoriesUsed map[string]bool
 	unsupported []string
 	oblNames  map[string]int
 	tracks    map[string]*trackInfo
@@ -120,7 +121,7 @@ func newCtx(P *Program, CS *Contracts, fn *ssa.Function, con *Contract) *Ctx {
 	c := &Ctx{P: P, CS: CS, fn: fn, con: con, declared: map[string]bool{}, compSort: map[string]Sort{},
 		dtDone: map[string]bool{}, strLits: map[string]string{}, typeTags: map[string]int{}, boxDone: map[Sort]bool{},
 		specDone: map[string]bool{}, axiomDone: map[string]bool{}, globals: map[string]bool{}, fnConsts: map[string]bool{},
-		assumed: map[string]bool{}, axiomsUsed: map[string]bool{}, oblNames: map[string]int{}, tracks: map[string]*trackInfo{}}
+		assumed: map[string]bool{}, axiomsUsed: map[string]bool{}, theoriesUsed: map[string]bool{}, oblNames: map[string]int{}, tracks: map[string]*trackInfo{}}
 	c.bv = con != nil && con.Arith == "bv"
 	c.curBlk = -1
 	c.prelude()
